@@ -9,7 +9,7 @@ os.makedirs(d, exist_ok=True)
 for f in os.listdir(src):
     if os.path.isfile(os.path.join(src, f)): shutil.copy(os.path.join(src, f), os.path.join(d, f))
 m0 = json.load(open('/verif/seeded/C11-1/meta.json'))
-m = {"property": prop, "seed": name, "origin": m0["origin"] + " (later wave)", "base_commit": "afda821",
+m = {"property": prop, "seed": name, "origin": m0["origin"] + " (later wave)", "base_commit": os.popen("git -C /repo rev-parse --short HEAD").read().strip(),
      "files_touched": sorted(set(l.split()[-1][2:] for l in open(os.path.join(d, 'patch.diff')) if l.startswith('+++ b/'))),
      "what": what, "needs_to_manifest": needs,
      "confirmed": {"how": m0["confirmed"]["how"], "demo_unpatched_rc": 0, "suite_pass": 880, "suite_fail": 0, "demo_patched_rc": 1},
